@@ -1,5 +1,6 @@
 import PV.Common.Proto
 import PV.C18.Model
+import PV.C18.Spec
 /-! Driver for C18: answers the same request lines as `harness/src/bin/pvh_c18.rs`.
 
     request : `fmt <hex spec> <kind i|f|s|b> <value> [<kind> <value>]...`
@@ -70,7 +71,25 @@ def handleFmt (spec : List Nat) (vals : List Value) : String :=
   | .error _ => "perr"
   | .ok r => joinSep " " (showSpec r :: vals.map (fun v => showRes (formatValue r v)))
 
+def toPyValue : Value → Spec.PyValue
+  | .int n => .int n | .float b => .float b | .str s => .str s | .bool b => .bool b
+
+/-- `pyfmt`: the reference `Spec.pyFormat` on the same request syntax (spec validation against
+    CPython, see tools/props/c18.py) -/
+def handlePyFmt (spec : List Nat) (vals : List Value) : String :=
+  joinSep " " (vals.map fun v => match Spec.pyFormat spec (toPyValue v) with
+    | none => "err"
+    | some t => "ok:" ++ hex (utf8Encode t))
+
 def handle : List String → String
+  | "pyfmt" :: spec :: rest =>
+    if rest.isEmpty then "bad-request" else
+    match unhex spec, parseVals rest with
+    | some bs, some vals =>
+      match utf8Decode bs with
+      | some cs => handlePyFmt cs vals
+      | none => "bad-request"
+    | _, _ => "bad-request"
   | "fmt" :: spec :: rest =>
     if rest.isEmpty then "bad-request" else
     match unhex spec, parseVals rest with
